@@ -149,6 +149,33 @@ def main():
             if mc != cnt:
                 ndiff += 1
                 if first_diff is None: first_diff = (j, "states per segment: implementation %s model %s" % (" ".join(cnt)[:120], " ".join(mc)[:120]))
+    # ---- reduceVertices as a whole against PathModel.reduce_vertices: table-driven motion validator, the simplifier's random
+    # numbers from a tape (RNG tape hook); the resulting vertex list and return value must be identical
+    rv_feed = []; rng = c.rng
+    for i in range(400 if quick else 20000):
+        n = rng.choice([2, 3, 3, 4, 5, 6, 8, 10, 12, 16, 24]); dens = rng.choice([0.0, 0.05, 0.15, 0.3, 0.6])
+        pairs = ["%d-%d" % (a, b) for a in range(n) for b in range(a + 1, n) if rng.random() < dens]
+        if rng.random() < 0.1 and n >= 3: pairs.append("0-%d" % (n - 1))
+        rn, rd = rng.choice([(1, 4), (1, 2), (1, 8), (1, 1), (0, 1), (33, 100), (3, 4), (2, 1)])
+        if (rn, rd) == (33, 100) and n >= 40: rn, rd = 1, 4
+        rv_feed.append("RV %d %d %d %d %d %d | %s" % (n, rng.choice([0, 0, 1, 3, 10, 50]), rng.choice([0, 0, 1, 2, 5]), rn, rd, rng.randint(0, 10 ** 6), " ".join(pairs)))
+    rcv, ov, ev, sv = vf.sh([drv], input="\n".join(rv_feed) + "\n", timeout=900); c.step("correspond:impl-reduce", drv + " RV ...", sv, rcv == 0)
+    rcm, om, em, sm = vf.sh([model, "path"], input="\n".join(rv_feed) + "\n", timeout=900); c.step("correspond:model-reduce", model + " path", sm, rcm == 0)
+    iv, mvl = [l for l in ov.split("\n") if l.startswith("rv ")], [l for l in om.split("\n") if l.startswith("rv ")]
+    stats["reduce_scripts"] = len(rv_feed)
+    for k, l in enumerate(rv_feed):
+        a = iv[k].split(" | used")[0].strip() if k < len(iv) else "?"; b = mvl[k].strip() if k < len(mvl) else "?"
+        if a.startswith("rv 1"): stats["reduce_changed"] += 1
+        if a != b:
+            ndiff += 1
+            if first_diff is None or len(l) < len(first_diff[0]): first_diff = (l, "reduceVertices: implementation '%s' model '%s'" % (a[:160], b[:160]))
+        # the statement on the implementation's own answer: ends kept, vertices in order, every new adjacent pair accepted by the table
+        try:
+            ids = [int(x) for x in a.split("|")[1].split()]; n = int(l.split()[1]); okp = set(l.split("|")[1].split())
+            if ids[0] != 0 or ids[-1] != n - 1 or ids != sorted(set(ids)) or any(y != x + 1 and ("%d-%d" % (x, y)) not in okp for x, y in zip(ids, ids[1:])) or (a.startswith("rv 0") and ids != list(range(n))):
+                pred(l, "reduceVertices returned %s: ends / order / an adjacent pair the validator never accepted / unchanged flag" % a)
+        except Exception:
+            pred(l, "no observation: " + a[:80])
     if ledger_feed:
         rc3, o3, e3, s3 = vf.sh([model, "ledger"], input="\n".join(ledger_feed) + "\n", timeout=600); c.step("correspond:model-ledger", model + " ledger", s3, rc3 == 0)
         for j, v in zip(ledger_jobs, o3.split("\n")):
@@ -165,7 +192,7 @@ def main():
         j, msg = first_pred
         c.violation("implementation violates C17: %s on '%s'" % (msg, j), "# C17 replay: bin/check C17 --replay <this file>  (or: build/harness/simplify_driver <the line>)\n%s\n" % j)
     elif first_diff:
-        c.broken.append("correspondence C17 (PathGeometric::interpolate vs PathModel.interp_counts): %s on '%s'" % (first_diff[1], first_diff[0]))
+        c.broken.append("correspondence C17 (PathGeometric::interpolate vs PathModel.interp_counts, reduceVertices vs PathModel.reduce_vertices): %s on '%s'" % (first_diff[1], first_diff[0]))
     c.finish()
 
 
